@@ -12,9 +12,9 @@ from .common import cN, cbool, clist, copt
 
 THEOREMS_ENC = [
     "encoded_param_conforms", "encoded_request_conforms", "array_length_exact",
-    "every_element_typed", "empty_array_is_sent", "array_node_shape",
-    "struct_children_in_schema_order", "encoded_theorem_instance_holds",
-    "arraytype_first_same_tag_child_refuted",
+    "request_array_lengths_exact", "every_element_typed", "empty_array_is_sent",
+    "none_is_nil_or_omitted", "array_node_shape", "struct_children_in_schema_order",
+    "encoded_theorem_instance_holds", "arraytype_first_same_tag_child_refuted",
 ]
 
 PRE_ENC = ("From SV Require Import Lib.Base Fam.Schema C01.Marshal C01.Guard C01.Encoded.")
@@ -164,7 +164,8 @@ def gen_evalue(rng, S, tref, opt, nillable, depth=0, top=False):
         return [gen_evalue(rng, S, t.item, False, False, depth + 1) for _ in range(n)]
     real = t
     cands = S.derived(t)
-    if len(cands) > 1 and rng.random() < 0.35:
+    # (a derived type may hold arrays of its own base: bounded by depth)
+    if len(cands) > 1 and depth < 4 and rng.random() < 0.35:
         real = rng.choice(cands)
     fields = []
     for m in S.all_members(real):
